@@ -410,6 +410,9 @@ func (c *Channel) TouchMessage(clientID int64, id MessageID, clientMsgTimeout ti
 	// while the message is out of the in-flight map
 	c.exitMutex.RLock()
 	defer c.exitMutex.RUnlock()
+	// and Channel.Empty (write lock) must not run in between
+	c.RLock()
+	defer c.RUnlock()
 
 	msg, err := c.popInFlightMessage(clientID, id)
 	if err != nil {
@@ -459,6 +462,10 @@ func (c *Channel) RequeueMessage(clientID int64, id MessageID, timeout time.Dura
 	// while the message is between the in-flight map and the queue / deferred map
 	c.exitMutex.RLock()
 	defer c.exitMutex.RUnlock()
+	// and Channel.Empty (write lock) must not run while the message is in no
+	// container: it would survive the Empty and be delivered again
+	c.RLock()
+	defer c.RUnlock()
 
 	// remove from inflight first
 	msg, err := c.popInFlightMessage(clientID, id)
